@@ -56,6 +56,13 @@ class ValueOracle(object):
   def mag(self, r):
     return self.m.mag(self.node, r)
 
+  def underflows(self, r):
+    """Some intermediate of the evaluation at r lies in the range doubles flush to zero."""
+    try:
+      return self.m.min_subval(self.node, r) < mpf("1e-290")
+    except (RefDomainError, ZeroDivisionError, ValueError, OverflowError):
+      return False
+
   def dmag(self, r, n=1):
     """Magnitude of the terms of the n-th derivative (used with the 1e-13 factor)."""
     r = F(r)
@@ -199,6 +206,9 @@ def _check_value(ctx, kind, tok, orc, r, factor=1, rel=1e-9, abs_=0.0, where=Non
       return True
   if last is None:
     ctx.count("out_of_domain_points")
+    return True
+  if orc.underflows(r):
+    ctx.count("underflow_domain_points")
     return True
   if count:
     ctx.count("values_compared")
